@@ -304,6 +304,20 @@ def monOp (op : String) (args : List String) : Option String :=
         | .ok sp => if got == (sp.ownerPayout : Int) then "ok" else "viol C09-penalty-amount"
         | .error _ => "viol C09-penalty-amount"
       | .error _ => "viol C09-penalty-amount")
+  | "mon_ss_slippage" => do
+    -- <tolerance|-> <offer decimals> <ask decimals> <max decimals> <offer> <gross> <net return>
+    let (tol, ts) ← pOptNat args
+    let (od, ts) ← pNat ts
+    let (ad, ts) ← pNat ts
+    let (mx, ts) ← pNat ts
+    let (offer, ts) ← pNat ts
+    let (gross, ts) ← pNat ts
+    let (net, _) ← pNat ts
+    let slip0 := offer * 10 ^ (mx - od) - gross * 10 ^ (mx - ad)
+    let slippage := slip0 / 10 ^ (mx - ad)
+    let eff := min (tol.getD C.DEFAULT_SLIPPAGE) C.MAX_ALLOWED_SLIPPAGE
+    some (if net + slippage == 0 then "viol C13-slippage-exceeded"
+      else if slippage * ONE18 / (net + slippage) ≤ eff then "ok" else "viol C13-slippage-exceeded")
   | "mon_tol_monotone" => do
     -- only emitted when the same deposit was refused under the larger and accepted under the smaller tolerance
     some "viol C13-tolerance-not-monotone"
